@@ -33,6 +33,13 @@ func (w *world) reflectCall(id int, field int, pos []interface{}) (interface{}, 
 		}
 	}
 	v, err := w.resolve(id, &ggql.Field{Name: "f" + strconv.Itoa(field)}, args)
+	if n != nil && w.strat3[n.gotype] == 'V' && w.objField[[2]int{n.gotype, field}] && (id+field)%2 == 0 {
+		// the struct itself instead of a pointer to it, where an object type is declared (under an
+		// abstract type ggql tells the GraphQL type by the Go type that was registered: the pointer)
+		if rv := reflect.ValueOf(v); rv.Kind() == reflect.Ptr && !rv.IsNil() && rv.Elem().Kind() == reflect.Struct && strings.HasPrefix(rv.Elem().Type().Name(), "V") {
+			v = rv.Elem().Interface()
+		}
+	}
 	return typedSlice(v), err
 }
 
@@ -93,7 +100,7 @@ func c02Exec(input sx.S) (obs sx.S) {
 			if c == 'A' {
 				anyUsed = true
 			}
-			if c == 'F' || c == 'G' || c == 'M' {
+			if c == 'F' || c == 'G' || c == 'M' || c == 'V' {
 				reflUsed = true
 			}
 		}
@@ -287,6 +294,8 @@ func (w *world) sample(id int) interface{} {
 		return o
 	case 'F':
 		return newReflectObj(w, -1, id)
+	case 'V':
+		return newValueObj(w, -1, id, true)
 	case 'A':
 		return newNodeObj(w, -1, id, false)
 	}
@@ -309,7 +318,7 @@ func c02Valid(input sx.S) bool {
 		}
 		for _, p := range al[2:] {
 			pl := sx.List(p)
-			if c := pl[1].(string); c != "R" && c != "A" && c != "F" && c != "G" && c != "M" {
+			if c := pl[1].(string); c != "R" && c != "A" && c != "F" && c != "G" && c != "M" && c != "V" {
 				return false
 			}
 		}
@@ -389,6 +398,9 @@ func c02Gen(r *rand.Rand, tier string) []Case {
 			}
 			c.Tags = append(c.Tags, "struct-field-reflection")
 		}
+		// reflection over methods with value receivers, the values of a type being struct values and
+		// pointers side by side (registered as pointers, or discovered on first use)
+		asg = append(asg, all("V", 1), all("V", disc))
 		if disc == 0 {
 			// the values of every type alternate between the Resolver interface and reflection (bindings
 			// discovered on first use; without abstract types no registration is needed)
